@@ -30,9 +30,31 @@ pub fn convert(f: &f::Layout) -> Result<s::Layout, String> {
     adjust_repeats(&mut res, &from_table, &alias_mappings, fm)?;
   }
   
+  // The mapper refuses (panics on) a key listed twice in one `from` or `to`,
+  // which can also result from expanding aliases and rows; reject it here.
+  for sm in &res {
+    if let Some(k) = first_duplicate(&sm.from) {
+      return Err(format!("Mapping from {:?} to {:?} lists the key {} more than once in `from`", sm.from, sm.to, k));
+    }
+    if let Some(k) = first_duplicate(&sm.to) {
+      return Err(format!("Mapping from {:?} to {:?} lists the key {} more than once in `to`", sm.from, sm.to, k));
+    }
+  }
+  
   Ok(s::Layout {
     mappings: res
   })
+}
+
+fn first_duplicate(keys: &[KeyCode]) -> Option<KeyCode> {
+  for i in 0 .. keys.len() {
+    for j in i+1 .. keys.len() {
+      if keys[i] == keys[j] {
+        return Some(keys[i]);
+      }
+    }
+  }
+  None
 }
 
 fn adjust_repeats<'a>(res: &mut Vec<s::Mapping>, from_table: &HashMap<FromSet, Vec<usize>>, alias_mappings: &'a HashMap<String, Vec<&'a f::AliasMapping>>, fm: &f::Mapping) -> Result<(), String> {
